@@ -831,7 +831,7 @@ func genC10(g *gen) {
 						cnt++
 					}
 					emit("readinto")
-					if (src.precomp || !r.tables) && (g.thorough() || logn == 3 || g.rng.coin()) {
+					if g.thorough() || logn == 3 || g.rng.coin() {
 						emit("readintotab")
 					}
 				}
